@@ -96,8 +96,9 @@ def find_passes(F, fn, pr):
                     tt = pr.rvalue(payload)
                     if tt[0] == "agg" and tt[1].endswith("Option::Some") and P.strip(tt[2][0]) == x:
                         S = l
-                    if tt[0] == "phi" or tt[0] == "field":
-                        pass
+                    if tt[0] == "call" and tt[1] == "std::option::Option::<T>::map" and len(tt[2]) == 2 and \
+                            P.strip(tt[2][0], calls=False) == ps.cur_term and _closure_returns_capture(F, tt[2][1]) == x:
+                        S = l
             # `S = move tmp` where tmp = Some(x)
         if S is None:
             for l, ds in pr.defs.items():
@@ -136,6 +137,20 @@ def is_weight_of_cur(ps, t):
     if s[0] == "field" and s[1][0] == "variant" and s[1][2] == "Some":
         return P.strip(s[1][1], calls=False) == ps.cur_term
     return False
+
+
+def _closure_returns_capture(F, clo):
+    """the captured term a closure returns whatever its argument is (`|_| x`), else None"""
+    c = P.strip(clo, calls=False)
+    if not (c[0] == "agg" and c[1].startswith("closure:")):
+        return None
+    cf = F.fns.get(c[1][len("closure:"):])
+    if cf is None or cf.cfg.has_loops() or any(b["term"]["k"] in ("call", "switch") for i, b in enumerate(cf.blocks) if i in cf.cfg.reachable):
+        return None
+    r = P.strip(P.Prov(cf).local(0))
+    if r[0] == "field" and P.strip(r[1]) == ("param", 1) and r[2] < len(c[2]):
+        return P.strip(c[2][r[2]])
+    return None
 
 
 def token_of_push(F, fn, pr, bi):
@@ -193,10 +208,24 @@ def check_pass(ctx, F, fn, pr, ps, rule, tokens_local_pred):
                 W_eq.append((b, lab))
             else:
                 problems.append(f"weights of neighbouring rank pairs are compared with {op}, not with == / !=")
+            continue
+        # `cur != Some(weight of start)` on the Options themselves: absent OR different weight in one test
+        for (u, v) in ((x, y), (y, x)):
+            vs = P.strip(v, calls=False)
+            if is_cur(u) and vs[0] == "agg" and vs[1] == "adt:std::option::Option::Some" and len(vs[2]) == 1 and \
+                    (is_weight_of_start(ps, vs[2][0]) or is_weight_of_start(ps, P.strip(vs[2][0], calls=False))):
+                if op == "Ne":
+                    W_ne.append((b, lab))
+                    C_none.append((b, lab))
+                elif op == "Eq":
+                    W_eq.append((b, lab))
+                    C_some.append((b, lab))
+                else:
+                    problems.append(f"weights of neighbouring rank pairs are compared with {op}, not with == / !=")
     if not ps.wstart_gets:
         problems.append("the open run's weight is not looked up from the run's start rank pair")
     # pushes / resets / opens inside the loop (not in nested loops)
-    pushes, resets, opens, other_S = [], [], [], []
+    pushes, resets, opens, other_S, opens_map = [], [], [], [], []
     for bi, t in fn.calls():
         if bi in inner_blocks and bi in cfg.reachable and t["callee"].get("name") == "push" and tokens_local_pred(fn, t):
             pushes.append(bi)
@@ -209,6 +238,10 @@ def check_pass(ctx, F, fn, pr, ps, rule, tokens_local_pred):
             resets.append(db)
         elif tt and tt[0] == "agg" and tt[1].endswith("Option::Some") and P.strip(tt[2][0]) == ps.x:
             opens.append(db)
+        elif tt and tt[0] == "call" and tt[1] == "std::option::Option::<T>::map" and len(tt[2]) == 2 and is_cur(tt[2][0]) and \
+                _closure_returns_capture(F, tt[2][1]) == ps.x:
+            # start = cur.map(|_| x): Some(x) exactly when the pair is present, None otherwise
+            opens_map.append(db)
         else:
             other_S.append(db)
     if other_S:
@@ -262,8 +295,11 @@ def check_pass(ctx, F, fn, pr, ps, rule, tokens_local_pred):
         if any(pb in r for pb in pushes) or any(rb in r for rb in resets):
             problems.append("a present pair of the same weight can still close the run: runs are not maximal")
     # ---- T3: opening ------------------------------------------------------------------------------
-    if len(opens) < 1:
+    if len(opens) + len(opens_map) < 1:
         problems.append("no run is ever opened (start = Some(current rank))")
+    for ob in opens_map:
+        if not I.guarded_by(fn, ob, S_none, start=header):
+            problems.append("a run is opened although one is already open (its start is overwritten)")
     for ob in opens:
         if not I.guarded_by(fn, ob, S_none, start=header):
             problems.append("a run is opened although one is already open (its start is overwritten)")
@@ -271,7 +307,18 @@ def check_pass(ctx, F, fn, pr, ps, rule, tokens_local_pred):
             problems.append("a run is opened at an ABSENT rank pair")
     # completeness: from (S none ∧ cur some) the latch is reached only through an open
     open_tests = [(b, l) for (b, l) in C_some if I.guarded_by(fn, b, S_none, start=header)]
-    if not open_tests:
+    if opens_map and not opens:
+        # every `no run open` outcome leads to the presence-conditional open
+        open_tests = []
+        s_tests = {b for (b, l, st) in s_edges if b in inner_blocks}
+        for (b, l) in S_none:
+            tgt = edge_target(fn, b, l)
+            if I.reachable_avoiding(fn, [], start=tgt, removed_blocks=[header]) & (s_tests - {b}):
+                continue    # another test of the state follows: that one decides
+            r = I.reachable_avoiding(fn, [], start=tgt, removed_blocks=opens_map)
+            if any(t in r for t in tails):
+                problems.append("a present pair with no run open does not always open a run")
+    elif not open_tests:
         problems.append("`no run open and the pair is present` is never tested: runs would not start")
     for (b, l) in open_tests:
         tgt = edge_target(fn, b, l)
